@@ -29,9 +29,9 @@ const (
 	day  = 24 * time.Hour
 )
 
-var contents = [][]byte{[]byte("x1\n"), []byte("yy22\n")}
-var contentName = []string{"X", "Y"}
-var outIDs [2]cache.OutputID
+var contents = [][]byte{[]byte("x1\n"), []byte("yy22\n"), {}}
+var contentName = []string{"X", "Y", "E"}
+var outIDs [3]cache.OutputID
 var ids [2]cache.ActionID
 var idName = []string{"A", "B"}
 
@@ -294,18 +294,29 @@ func buildOps() []opDef {
 	put := func(i, ci int) opDef {
 		return opDef{fmt.Sprintf("Put(%s,%s)", idName[i], contentName[ci]), func(e *env) string {
 			var err error
+			dpath := filepath.Join(e.dir, rel(outIDs[ci], "d"))
+			_, statErr := os.Stat(dpath)
 			if p := catch(func() { _, _, err = e.c.Put(ids[i], bytes.NewReader(contents[ci])) }); p != nil {
 				return fmt.Sprintf("Put panics: %v", p)
 			}
 			if err != nil {
 				return fmt.Sprintf("Put fails: %v", err)
 			}
+			if statErr != nil && len(contents[ci]) == 0 {
+				// A file that Put creates carries the time of its creation. For
+				// non-empty outputs copyFile sets it from c.now ("mainly for
+				// tests"); the size-0 branch returns before that line, so under
+				// the virtual clock the harness dates a newly created empty
+				// output itself. An empty output that already existed is left
+				// to the code under test.
+				os.Chtimes(dpath, e.clk, e.clk)
+			}
 			e.content[i] = ci
 			e.touch(rel(ids[i], "a"), rel(outIDs[ci], "d"))
 			return ""
 		}}
 	}
-	ops = append(ops, put(0, 0), put(1, 1), put(1, 0))
+	ops = append(ops, put(0, 0), put(1, 1), put(1, 0), put(0, 2), put(1, 2))
 	lookup := func(kind string, i int) opDef {
 		return opDef{fmt.Sprintf("%s(%s)", kind, idName[i]), func(e *env) string {
 			var err error
@@ -779,7 +790,7 @@ func main() {
 	r.Set("populations_total", len(pops))
 	r.Set("exhaustive", !r.Capped())
 	r.Set("explanation", "a step = optional clock advance from a 13-value delta alphabet (boundaries of 1h, 24h, 5d, 5d+1h) followed by one of Put/Get/GetBytes/GetFile/Trim; all histories up to the step counts in history_depths_completed (full delta alphabet to the smaller depth, the five boundary deltas one step deeper), deduplicated on the exact state (files, mtimes relative to the virtual clock, trim record, last-use model); every Trim call is judged against the statement's reference model. populations = all sets of <= 2 files from 9 entry/non-entry kinds x 14 ages x 13 last-trim records (thorough: also all sets of 3 files over the 6 boundary ages x 6 records), each followed by one Trim")
-	r.Assume("the clock is virtual (c.now replaced through an add-only export file, as the package's own tests do); file mtimes are real mtimes on the scratch file system")
+	r.Assume("the clock is virtual (c.now replaced through an add-only export file, as the package's own tests do); file mtimes are real mtimes on the scratch file system; a newly created empty output is dated by the harness (copyFile's size-0 branch returns before the Chtimes that dates new files under a fake clock)")
 	r.Assume("a last-trim record that is missing, unparsable, >= 24h old or more than an hour in the future means no trim completed less than a day ago, so the trim must run; within an hour in the future either behaviour is accepted")
 	r.Finish()
 }
